@@ -180,7 +180,7 @@ func plainPool() []any {
 		math.MaxInt32, math.MaxInt32 + 1, math.MaxInt64, math.MinInt64,
 		bigOf("9223372036854775808"), bigOf("18446744073709551616"), bigOf("-18446744073709551616"),
 		0.5, -1.5, 1e11, 1e308, -1e308, math.NaN(), math.Inf(1), math.Inf(-1),
-		"", "abc", "10", "png", "test.png", ".", "\xff\xfe\x00", strings.Repeat("a", 1<<20),
+		"", "abc", "10", "png", "test.png", ".", "stdin", "\xff\xfe\x00", strings.Repeat("a", 1<<20),
 		[]any{}, []any{1, "a", nil}, []any{[]any{[]any{}}}, []any{255, 256, -1, 0.5},
 		obj(), obj("a", []any{[]any{1}}), obj("a", obj("b", obj("c", nil))),
 		// option objects with negative / huge / mistyped members
@@ -197,6 +197,7 @@ func plainPool() []any {
 		obj("line_bytes", bigOf("18446744073709551616"), "display_bytes", 1e308, "depth", "x", "width", math.MaxInt64,
 			"bits_format", "nonsense", "color", 1, "colors", -1),
 		obj("line_bytes", 1<<61, "display_bytes", 1),
+		obj("name", "md5", "encoding", "std", "prompt", "> ", "timeout", -1),
 		obj("comma", "", "comment", "\n", "encoding", -1, "force", nil, "remain_group", 0, "name", obj()),
 	}
 }
@@ -204,7 +205,8 @@ func plainPool() []any {
 // values outside the core pool: near-duplicates of a core value's type and sign
 var nonCore = map[string]bool{
 	"n:3": true, "n:64": true, "n:65536": true, "n:2147483648": true, "b:-18446744073709551616": true,
-	"f:-3p-1": true, "f:-inf": true, "s:3130": true, "s:2e": true, "s:746573742e706e67": true,
+	"f:-3p-1": true, "f:-inf": true, "s:3130": true, "s:2e": true, "s:746573742e706e67": true, "s:737464696e": true,
+	"O(encoding=s:737464;name=s:6d6435;prompt=s:3e20;timeout=n:-1)": true,
 	"A(n:255;n:256;n:-1;f:1p-1)": true, "O(a=O(b=O(c=null)))": true,
 	"O(attribute_prefix=n:1;indent=n:-3)": true, "O(indent=s:78)": true, "O(indent=f:nan)": true,
 	"O(keep_range=s:796573;pad_to_units=n:-1;unit=n:8)": true,
